@@ -648,9 +648,11 @@ func (am *AccountingManager) processPendingRecord(record *PendingAcctRecord) {
 	}
 
 	// Calculate exponential backoff
-	delay := am.config.RetryBaseDelay * time.Duration(1<<uint(record.RetryCount))
-	if delay > am.config.RetryMaxDelay {
-		delay = am.config.RetryMaxDelay
+	// min(base*2^n, max), computed without overflowing int64: base*2^n <= max
+	// iff base <= max>>n (max>>n is 0 once n reaches the word size).
+	delay := am.config.RetryMaxDelay
+	if n := uint(record.RetryCount); am.config.RetryBaseDelay <= am.config.RetryMaxDelay>>n {
+		delay = am.config.RetryBaseDelay << n
 	}
 	record.NextRetry = time.Now().Add(delay)
 
